@@ -18,16 +18,30 @@ Local Open Scope list_scope.
 Definition whole_prog : program :=
   Src_whole.functions ++ Src_conc.functions ++ Src_aes.functions ++ Src_aesmode.functions ++ file_prog.
 
-(* c = blocks per chunk buffer (BUF_SZ), hbuf = 64-byte blocks of the hash refill buffer (HBUF_SZ) *)
-Definition whole_state (c hbuf T : nat) (cm hm : Z) (no_echo : bool) (F key extra : list N) : state :=
+(* c = blocks per chunk buffer (BUF_SZ), hbuf = 64-byte blocks of the hash refill buffer (HBUF_SZ).
+   The state has two layers.  The PROCESS layer is what a process image holds between operations: constants, the statics
+   bufferctrl::live_num and buffergroup::instance, whatever heap objects are left, the heap counter.  The OPERATION layer is what a
+   caller supplies for one operation: the runcrypt object, key, seed and the two streams (harness/drv.cpp op_enc / op_decver). *)
+Definition process_init (c hbuf : nat) : state :=
   {| mem := file_globals hbuf ++ Src_aes.globals
-            ++ [("sum", cell U32 (16 * Z.of_nat c)); ("sizeof:iobuffer.b", cell U32 (16 * Z.of_nat c)); ("live_num", cell U8 0)]
-            ++ mk_objects "rc." Src_cry.objects_runcrypt
-            ++ [("key", bytes_object key); ("seed", bytes_object (extra ++ [0%N]))];
+            ++ [("sum", cell U32 (16 * Z.of_nat c)); ("sizeof:iobuffer.b", cell U32 (16 * Z.of_nat c)); ("live_num", cell U8 0)];
+     loc := []; pre := ""; files := []; ptrs := [("instance", VNull)]; fresh := 0 |}.
+
+Definition names_of {A} (l : list (string * A)) : list string := map fst l.
+Definition without {A} (names : list string) (l : list (string * A)) : list (string * A) :=
+  filter (fun kv => negb (existsb (String.eqb (fst kv)) names)) l.
+
+Definition op_layer (prev : state) (F key extra : list N) : state :=
+  let m := mk_objects "rc." Src_cry.objects_runcrypt ++ [("key", bytes_object key); ("seed", bytes_object (extra ++ [0%N]))] in
+  let ps := [("rc.fin", VPtr "fin" 0); ("rc.out", VPtr "fout" 0); ("rc.key", VPtr "key" 0)] in
+  {| mem := m ++ without (names_of m) (mem prev);
      loc := []; pre := "";
      files := [("fin", stream F 0); ("fout", stream [] 0)];
-     ptrs := [("instance", VNull); ("rc.fin", VPtr "fin" 0); ("rc.out", VPtr "fout" 0); ("rc.key", VPtr "key" 0)];
-     fresh := 0 |}.
+     ptrs := ps ++ without (names_of ps) (ptrs prev);
+     fresh := fresh prev |}.
+
+Definition whole_state (c hbuf T : nat) (cm hm : Z) (no_echo : bool) (F key extra : list N) : state :=
+  op_layer (process_init c hbuf) F key extra.
 
 Definition set_scalar (name : string) (t : ity) (v : Z) : stmt := SStore t (EGlobal name) (EConst v).
 
@@ -53,10 +67,12 @@ Definition whole_main (op : whole_op) (T : nat) (cm hm : Z) (no_echo : bool) (fs
         | WVer => SCall (Some "result") "runcrypt::execute_verify/1" (Some (EField "rc.")) [EConst fsize]
         end).
 
-Definition whole_init (op : whole_op) (c hbuf T : nat) (cm hm : Z) (F key extra : list N) : cstate :=
-  {| cs_sh := whole_state c hbuf T cm hm true F key extra;
+Definition whole_init_from (prev : state) (op : whole_op) (T : nat) (cm hm : Z) (F key extra : list N) : cstate :=
+  {| cs_sh := op_layer prev F key extra;
      cs_thr := [{| ct_cur := whole_main op T cm hm true (Z.of_nat (List.length F)); ct_k := KStop; ct_loc := []; ct_pre := ""; ct_st := TRun |}];
      cs_mx := [] |}.
+Definition whole_init (op : whole_op) (c hbuf T : nat) (cm hm : Z) (F key extra : list N) : cstate :=
+  whole_init_from (process_init c hbuf) op T cm hm F key extra.
 
 (* ---- a scheduler as a function: at every scheduling point the (seed-dependent) k-th enabled thread; no spurious wake-ups ---- *)
 Definition enabled_list (cs : cstate) : list nat := filter (enabled cs) (seq 0 (List.length (cs_thr cs))).
@@ -99,21 +115,37 @@ Definition in_bytes (cs : cstate) : list N :=
   match lget (files (cs_sh cs)) "fin" with Some f => map Z.to_N (cf_data f) | None => [] end.
 
 (* result of a whole-file operation: (returned bool, bytes of the output stream, bytes of the input stream afterwards, steps) *)
-Definition src_whole (op : whole_op) (c hbuf T : nat) (cm hm : Z) (F key extra : list N) (rnd : N)
-  : sres (bool * list N * list N * nat) :=
+Definition run_from (prev : state) (op : whole_op) (c T : nat) (cm hm : Z) (F key extra : list N) (rnd : N)
+  : sres (cstate * (bool * list N * list N * nat)) :=
   let n := List.length F in
-  let fuel := nat_of_N_tr (400000 + 40000 * N.of_nat T + 3000 * N.of_nat c + 400 * N.of_nat n)%N in            (* statements of one thread step (one chunk of c blocks at most) *)
+  let fuel := nat_of_N_tr (400000 + 40000 * N.of_nat T + 3000 * N.of_nat c + 400 * N.of_nat n)%N in   (* statements of one thread step *)
   let steps := (2000 + 200 * T + 40 * (n / (16 * c) + 1) * (T + 2))%nat in
-  match auto_run steps fuel rnd (whole_init op c hbuf T cm hm F key extra) O with
+  match auto_run steps fuel rnd (whole_init_from prev op T cm hm F key extra) O with
   | WDone cs k =>
       match main_result cs with
-      | Some z => SOk (negb (Z.eqb z 0), out_bytes cs, in_bytes cs, k)
+      | Some z => SOk (cs, (negb (Z.eqb z 0), out_bytes cs, in_bytes cs, k))
       | None => SErr "no result"
       end
   | WDeadlock k => SErr "DEADLOCK"
   | WSteps => SErr "step bound reached"
   | WErr w => SErr w
   end.
+Definition src_whole (op : whole_op) (c hbuf T : nat) (cm hm : Z) (F key extra : list N) (rnd : N)
+  : sres (bool * list N * list N * nat) :=
+  match run_from (process_init c hbuf) op c T cm hm F key extra rnd with SOk (_, r) => SOk r | SErr w => SErr w end.
+
+(* a HISTORY of operations in one process image: every operation starts from the process layer the previous one left behind *)
+Record hist_op := { h_op : whole_op; h_T : nat; h_cm : Z; h_hm : Z; h_F : list N; h_key : list N; h_extra : list N }.
+Fixpoint src_history_from (prev : state) (c : nat) (ops : list hist_op) (rnd : N) : list (sres (bool * list N * list N * nat)) :=
+  match ops with
+  | [] => []
+  | o :: r =>
+      match run_from prev (h_op o) c (h_T o) (h_cm o) (h_hm o) (h_F o) (h_key o) (h_extra o) rnd with
+      | SOk (cs, res) => SOk res :: src_history_from (cs_sh cs) c r (lcg rnd)
+      | SErr w => [SErr w]                           (* the process image is gone (undefined behaviour, deadlock): the history ends *)
+      end
+  end.
+Definition src_history (c hbuf : nat) (ops : list hist_op) (rnd : N) := src_history_from (process_init c hbuf) c ops rnd.
 
 Definition src_encrypt_file (c hbuf T : nat) (cm hm : N) (plain key seed : list N) (rnd : N) :=
   src_whole WEnc c hbuf T (Z.of_N cm) (Z.of_N hm) plain key seed rnd.
